@@ -4,9 +4,10 @@ invariant `Describes st m` ("the metadata record `m` describes the evaluator sta
 `metaQ` preserves.
 -/
 import LiquerModel.EvalMeta
-import LiquerProofs.Lemmas.EvalErr
+import LiquerProofs.Lemmas.EvalMetaRef
 
 namespace Liquer
+open C18R
 
 /-! ### one-step equations -/
 
@@ -244,8 +245,8 @@ theorem describes_action (env : Env) (n : Nat) {st : EState} {m : MetaRec} (h : 
   · simp [actionMeta, ha, h.attrs, cmdAttrsOf]
   · simp [actionMeta, hc]
   · exact refAction_error_no_data env n st a raw parent extra e hst he
-  · simp [actionMeta]
-  · simp [actionMeta]
+  · rfl
+  · intro hn; simp [actionMeta] at hn
   · intro f hf'
     simp only [actionMeta] at hf' ⊢
     exact ⟨(h.fileMime f hf').1, by rw [hmime.1 f hf']⟩
@@ -253,27 +254,69 @@ theorem describes_action (env : Env) (n : Nat) {st : EState} {m : MetaRec} (h : 
     simp only [actionMeta] at hf' ⊢
     exact ⟨(h.noFileMime hf').1, by simp [hmime.2 hf']⟩
 
+/-- inversion of `metaAction`: a returned state is `refAction`'s, the metadata is `actionMeta` -/
+theorem metaAction_st (env : Env) (n : Nat) (st : EState) (m : MetaRec) (a : Action) (raw parent : Str) (extra : Extra)
+    (e : EState) (m2 : MetaRec) (h : metaAction env n st m a raw parent extra = (.st e, m2)) :
+    (refAction env n st a raw parent extra).1 = .st e ∧
+      m2 = actionMeta m a parent (actionInfo env n st a raw parent extra) e := by
+  unfold metaAction at h
+  generalize (refAction env n st a raw parent extra).1 = o at h
+  cases o with
+  | st s2 =>
+    simp only [Prod.mk.injEq, Outcome.st.injEq] at h
+    obtain ⟨rfl, rfl⟩ := h
+    exact ⟨rfl, rfl⟩
+  | _ => simp at h
+
+/-- case analysis of the last step -/
+theorem metaPost_cases (env : Env) (n : Nat) (st : EState) (m : MetaRec) (parent : Str) (r : Option Seg) (key raw : Str)
+    (extra : Extra) (e : EState) (m' : MetaRec) (he : metaPost env n st m parent r key raw extra = (.st e, m')) :
+    (r = none ∧ e = { st with query := key } ∧ m' = { m with query := key }) ∨
+    (∃ h f, r = some (.transform h [] (some f)) ∧
+      e = { st with filename := some f, extension := some (extensionOf f), query := key } ∧ m' = m.withFilename key f) ∨
+    (∃ h a e2, r = some (.transform h [a] none) ∧ (refAction env n st a raw parent extra).1 = .st e2 ∧
+      e = { e2 with query := key } ∧
+      m' = { actionMeta m a parent (actionInfo env n st a raw parent extra) e2 with query := key }) := by
+  unfold metaPost at he
+  cases r with
+  | none =>
+    simp only [Prod.mk.injEq, Outcome.st.injEq] at he
+    exact Or.inl ⟨rfl, he.1.symm, he.2.symm⟩
+  | some seg =>
+    cases seg with
+    | resource h ns => simp at he
+    | transform h as f =>
+      cases as with
+      | nil =>
+        cases f with
+        | none => simp at he
+        | some f =>
+          simp only [Prod.mk.injEq, Outcome.st.injEq] at he
+          exact Or.inr (Or.inl ⟨h, f, rfl, he.1.symm, he.2.symm⟩)
+      | cons a rest =>
+        cases rest with
+        | cons _ _ => simp at he
+        | nil =>
+          cases f with
+          | some _ => simp at he
+          | none =>
+            simp only [] at he
+            rcases hm : metaAction env n st m a raw parent extra with ⟨o, m2⟩
+            rw [hm] at he
+            cases o with
+            | st s2 =>
+              simp only [Prod.mk.injEq, Outcome.st.injEq] at he
+              obtain ⟨hr, rfl⟩ := metaAction_st env n st m a raw parent extra s2 m2 hm
+              exact Or.inr (Or.inr ⟨h, a, s2, rfl, hr, he.1.symm, he.2.symm⟩)
+            | _ => simp at he
+
 theorem metaPost_describes (env : Env) (n : Nat) {st : EState} {m : MetaRec} (h : Describes st m) (hst : st.isError = false)
     (parent : Str) (r : Option Seg) (key raw : Str) (extra : Extra) (e : EState) (m' : MetaRec)
     (he : metaPost env n st m parent r key raw extra = (.st e, m')) : Describes e m' := by
-  unfold metaPost at he
-  split at he
-  · simp only [Prod.mk.injEq, Outcome.st.injEq] at he
-    obtain ⟨rfl, rfl⟩ := he
-    exact describes_requery h key
-  · simp only [Prod.mk.injEq, Outcome.st.injEq] at he
-    obtain ⟨rfl, rfl⟩ := he
-    exact describes_filename h key _
-  · next a =>
-    unfold metaAction at he
-    split at he
-    · next st2 hr =>
-      simp only [Prod.mk.injEq, Outcome.st.injEq] at he
-      obtain ⟨rfl, rfl⟩ := he
-      exact describes_requery (describes_action env n h hst a raw parent extra st2 hr) key
-    · next o hne hr =>
-      cases o <;> simp_all
-  · simp at he
+  rcases metaPost_cases env n st m parent r key raw extra e m' he with ⟨_, rfl, rfl⟩ | ⟨_, f, _, rfl, rfl⟩ | ⟨_, a, e2, _, hr, rfl, rfl⟩
+  · exact describes_requery h key
+  · exact describes_filename h key f
+  · exact describes_requery (describes_action env n h hst a raw parent extra e2 hr) key
 
 theorem metaAfter_describes (env : Env) (n : Nat) {o : Outcome} {m : MetaRec} (h : ∀ st, o = .st st → Describes st m)
     (parent : Str) (r : Option Seg) (key raw : Str) (extra : Extra) (e : EState) (m' : MetaRec)
@@ -290,39 +333,47 @@ theorem metaAfter_describes (env : Env) (n : Nat) {o : Outcome} {m : MetaRec} (h
       exact metaPost_describes env n (h st rfl) (by simpa using hse) parent r key raw extra e m' he
   | _ => simp at he
 
+/-- case analysis of one level of `metaQ` -/
+theorem metaQ_cases (env : Env) (n : Nat) (q : Query) (raw : Str) (extra : Extra) (input : Option Val) (e : EState) (m : MetaRec)
+    (h : metaQ env (n+1) q raw extra input = (.st e, m)) :
+    (∃ r, (q.predecessor = none ∧ r = none ∨ ∃ p, q.predecessor = some (p, r) ∧ p.segments.isEmpty = true) ∧
+      metaAfter env n (.st (initSt env input)) (initMeta input) [] r (q.encode Gen.escapeTable) raw extra = (.st e, m)) ∨
+    (∃ p r, q.predecessor = some (p, r) ∧ p.segments.isEmpty = false ∧
+      metaAfter env n (metaQ env n p (p.encode Gen.escapeTable) .none input).1
+        (metaQ env n p (p.encode Gen.escapeTable) .none input).2 (p.encode Gen.escapeTable) r
+        (q.encode Gen.escapeTable) raw extra = (.st e, m)) := by
+  rw [metaQ_succ] at h
+  cases hres : q.isResource with
+  | true => simp [hres] at h
+  | false =>
+    simp only [hres, Bool.false_eq_true, if_false] at h
+    cases hp : q.predecessor with
+    | none => rw [hp] at h; exact Or.inl ⟨none, Or.inl ⟨rfl, rfl⟩, h⟩
+    | some pr =>
+      rcases pr with ⟨p, r⟩
+      rw [hp] at h
+      simp only at h
+      cases hpe : p.segments.isEmpty with
+      | true => simp only [hpe, if_true] at h; exact Or.inl ⟨r, Or.inr ⟨p, rfl, hpe⟩, h⟩
+      | false => simp only [hpe, Bool.false_eq_true, if_false] at h; exact Or.inr ⟨p, r, rfl, hpe, h⟩
+
 /-- every state `metaQ` returns is described by the metadata it returns with it -/
 theorem metaQ_describes (env : Env) : ∀ (n : Nat) (q : Query) (raw : Str) (extra : Extra) (input : Option Val) (e : EState)
     (m : MetaRec), metaQ env n q raw extra input = (.st e, m) → Describes e m
   | 0, q, raw, extra, input, e, m, h => by simp [metaQ_zero] at h
   | n + 1, q, raw, extra, input, e, m, h => by
-    rw [metaQ_succ] at h
-    split at h
-    · simp at h
-    · split at h
-      · exact metaAfter_describes env n (fun st hst => by cases hst; exact describes_init env input) _ _ _ _ _ e m h
-      · split at h
-        · exact metaAfter_describes env n (fun st hst => by cases hst; exact describes_init env input) _ _ _ _ _ e m h
-        · next p r _ =>
-          refine metaAfter_describes env n (fun st hst => ?_) _ _ _ _ _ e m h
-          exact metaQ_describes env n p _ .none input st _ (Prod.ext hst rfl)
+    rcases metaQ_cases env n q raw extra input e m h with ⟨r, _, h⟩ | ⟨p, r, _, _, h⟩
+    · exact metaAfter_describes env n (fun st hst => by cases hst; exact describes_init env input) _ _ _ _ _ e m h
+    · refine metaAfter_describes env n (fun st hst => ?_) _ _ _ _ _ e m h
+      exact metaQ_describes env n p _ .none input st _ (Prod.ext hst rfl)
 
 /-! ### the query text -/
 
 theorem metaPost_query (env : Env) (n : Nat) (st : EState) (m : MetaRec) (parent : Str) (r : Option Seg) (key raw : Str)
     (extra : Extra) (e : EState) (m' : MetaRec) (he : metaPost env n st m parent r key raw extra = (.st e, m')) :
     m'.query = key ∧ e.query = key := by
-  unfold metaPost at he
-  split at he
-  · simp only [Prod.mk.injEq, Outcome.st.injEq] at he; obtain ⟨rfl, rfl⟩ := he; exact ⟨rfl, rfl⟩
-  · simp only [Prod.mk.injEq, Outcome.st.injEq] at he; obtain ⟨rfl, rfl⟩ := he; exact ⟨rfl, rfl⟩
-  · split at he
-    · simp only [Prod.mk.injEq, Outcome.st.injEq] at he; obtain ⟨rfl, rfl⟩ := he; exact ⟨rfl, rfl⟩
-    · next x hne =>
-      rcases x with ⟨o, m2⟩
-      cases o with
-      | st s2 => exact absurd rfl (hne s2 m2)
-      | _ => simp at he
-  · simp at he
+  rcases metaPost_cases env n st m parent r key raw extra e m' he with ⟨_, rfl, rfl⟩ | ⟨_, f, _, rfl, rfl⟩ | ⟨_, a, e2, _, hr, rfl, rfl⟩ <;>
+    exact ⟨rfl, rfl⟩
 
 theorem metaAfter_query (env : Env) (n : Nat) (o : Outcome) (m : MetaRec) (parent : Str) (r : Option Seg) (key raw : Str)
     (extra : Extra) (e : EState) (m' : MetaRec) (he : metaAfter env n o m parent r key raw extra = (.st e, m')) :
@@ -341,13 +392,8 @@ theorem metaQ_query (env : Env) (n : Nat) (q : Query) (raw : Str) (extra : Extra
   cases n with
   | zero => simp [metaQ_zero] at h
   | succ n =>
-    rw [metaQ_succ] at h
-    split at h
-    · simp at h
-    · split at h
-      · exact (metaAfter_query _ _ _ _ _ _ _ _ _ _ _ h).1
-      · split at h
-        · exact (metaAfter_query _ _ _ _ _ _ _ _ _ _ _ h).1
-        · exact (metaAfter_query _ _ _ _ _ _ _ _ _ _ _ h).1
+    rcases metaQ_cases env n q raw extra input e m h with ⟨r, _, h⟩ | ⟨p, r, _, _, h⟩
+    · exact (metaAfter_query _ _ _ _ _ _ _ _ _ _ _ h).1
+    · exact (metaAfter_query _ _ _ _ _ _ _ _ _ _ _ h).1
 
 end Liquer
